@@ -56,7 +56,8 @@ def decorate(behaviours, seed, sweep_every, thorough):
             ballast = 32768 * rnd.choice([1, 1, 2]) - rnd.randrange(0, 500)
         out.append({"steps": steps,
                     "opts": {"rseed": rnd.randrange(1 << 40), "ballast": ballast,
-                             "sweep": i % sweep_every == 0, "subsets": thorough or i % 3 == 0}})
+                             "sweep": (3 if thorough else 2) if i % sweep_every == 0 else 0,
+                             "flips": 2 if thorough else 1, "subsets": thorough or i % 3 == 0}})
     return out
 
 
@@ -87,7 +88,8 @@ def run(ctx):
         return ctx.finish("model_checking", "replay of one recorded behaviour")
 
     thorough = not ctx.quick()
-    ctx.tlc_check("consensus", "MCWal.tla", "Wal_quick.cfg", timeout=900)
+    if not os.environ.get("VERIF_SKIP_TLC"):   # development aid only (mutation runs); never set by registered commands
+        ctx.tlc_check("consensus", "MCWal.tla", "Wal_quick.cfg", timeout=900)
     if thorough:
         r = ctx.tlc_check("consensus", "MCWal.tla", "Wal_thorough.cfg", timeout=3000, coverage=True)
         vlib.require_actions_covered(r)
@@ -104,7 +106,7 @@ def run(ctx):
         behaviours += ctx.tlc_simulate("consensus", "WalMBT.tla", "Wal_sim.cfg", depth=depth,
                                        seed=ctx.seed * 1000 + i, timeout=900)
     payload = {"interval": MODEL_INTERVAL,
-               "behaviours": decorate(behaviours, ctx.seed, 4 if thorough else 12, thorough)}
+               "behaviours": decorate(behaviours, ctx.seed, 5 if thorough else 10, thorough)}
     res = run_parallel(ctx, binary, payload, int(os.environ.get("VERIF_ENGINE_PROCS", "6")))
     st = res.get("stats", {})
     for need in ("cleanups", "failed_flushes", "crashes", "sweeps", "images_reopened"):
